@@ -13,7 +13,9 @@ RULE = (
     "replace_input_with/resize_*, replace_all_uses_with, convenience.rename/replace, every mutator of "
     "graph.inputs/outputs/initializers, name setters) over a universe with a main graph, a nested "
     "subgraph and a function body; arguments are index-decoded so they are type-correct but arbitrary. "
-    "Oracle: invariants I1-I4 over public accessors after every op, raised or not. "
+    "Multi-element arguments are passed under every spelling of Iterable (list, tuple, generator, iterator); copies of the "
+    "tracked collections are edited too. Oracle: invariants I1-I4 over public accessors after every op, raised or not, and once "
+    "more after a fixed tail of accepted edits that follows every history with a rejected call. "
     "Non-trivial = >=2 mutating ops and at least one of: a rejected call, a value in >=2 roles, "
     "a duplicate collection entry, a node moved between graphs. distinct = distinct script JSON."
 )
